@@ -31,6 +31,7 @@ use tracing_subscriber::{
     filter::LevelFilter,
     prelude::*,
     registry::{LookupSpan, Registry, SpanRef},
+    reload,
     subscribe::Context,
     Subscribe,
 };
@@ -230,12 +231,14 @@ where
     }
 }
 
-fn make_dispatch(inst: usize, n: usize) -> Dispatch {
+/// With two recording layers the second one sits behind `reload::Subscriber` (its handle is used by `mdrop`).
+fn make_dispatch(inst: usize, n: usize) -> (Dispatch, Option<reload::Handle<Rec<2>>>) {
     let base = Registry::default().with(ErrorSubscriber::default()).with(Rec::<1> { inst });
     if n >= 2 {
-        Dispatch::new(base.with(Rec::<2> { inst }).with(FRec { inst }.with_filter(LevelFilter::INFO)))
+        let (rl, handle) = reload::Subscriber::new(Rec::<2> { inst });
+        (Dispatch::new(base.with(rl).with(FRec { inst }.with_filter(LevelFilter::INFO))), Some(handle))
     } else {
-        Dispatch::new(base.with(FRec { inst }.with_filter(LevelFilter::INFO)))
+        (Dispatch::new(base.with(FRec { inst }.with_filter(LevelFilter::INFO))), None)
     }
 }
 
@@ -251,6 +254,10 @@ enum Op {
     New(u64, Pk, bool), // bool: DEBUG level (disabled for the filtered layer)
     PDrop(u64),         // the handle is dropped while a scripted panic unwinds (caught)
     FDrop(u64),         // the handle is dropped and the outermost layer's on_close panics for that span (caught)
+    PExitQ(i64),        // Collect::exit by creation number, from a destructor that runs while a scripted panic unwinds (caught)
+    PDropGuard(u64),    // the EnteredSpan guard is dropped while a scripted panic unwinds (caught)
+    MDrop(usize, u64),  // mdrop tA tB h: thread tA (the op's thread) parks inside reload Handle::modify of h's instance, thread tB drops h, tA leaves
+    ModifyPark(usize),  // internal: what tA executes for MDrop
     Hold(u64, u64),     // hold k h: look the span of handle h up through its registry and keep the SpanRef in slot k
     Poke(u64),          // poke k: write an extension (Note) through the held SpanRef
     Peek(u64),          // peek k: read it back through the held SpanRef
@@ -280,6 +287,9 @@ struct Shared {
     /// (instance, id, dispatch) retained per creation number for raw exits
     raw: Mutex<HashMap<i64, (usize, span::Id, Dispatch)>>,
     disp: Vec<Dispatch>,
+    reload: Vec<Option<reload::Handle<Rec<2>>>>,
+    /// (some thread is parked inside Handle::modify, it may leave)
+    park: (Mutex<(bool, bool)>, std::sync::Condvar),
     global: bool,
 }
 
@@ -604,6 +614,63 @@ impl Worker {
                     None => log("{\"k\":\"ill\",\"c\":3}".into()),
                 }
             }
+            Op::PExitQ(q) => {
+                let x = lock(&sh.raw).get(q).cloned();
+                match x {
+                    None => log("{\"k\":\"ill\",\"c\":4}".into()),
+                    Some((_, id, d)) => {
+                        struct ExitOnDrop(Dispatch, span::Id);
+                        impl Drop for ExitOnDrop {
+                            fn drop(&mut self) {
+                                self.0.exit(&self.1);
+                            }
+                        }
+                        let r = catch_unwind(AssertUnwindSafe(move || {
+                            let _exits_during_unwinding = ExitOnDrop(d, id);
+                            std::panic::panic_any(ScriptedUnwind);
+                        }));
+                        if let Err(e) = r {
+                            if e.downcast_ref::<ScriptedUnwind>().is_none() {
+                                std::panic::resume_unwind(e);
+                            }
+                        }
+                    }
+                }
+            }
+            Op::PDropGuard(g) => match self.guards.remove(g) {
+                None => log("{\"k\":\"ill\",\"c\":3}".into()),
+                Some(e) => {
+                    let r = catch_unwind(AssertUnwindSafe(move || {
+                        let _dropped_during_unwinding = e;
+                        std::panic::panic_any(ScriptedUnwind);
+                    }));
+                    if let Err(e) = r {
+                        if e.downcast_ref::<ScriptedUnwind>().is_none() {
+                            std::panic::resume_unwind(e);
+                        }
+                    }
+                }
+            },
+            Op::ModifyPark(i) => {
+                let park = &sh.park;
+                let leave = |_: &mut Rec<2>| {
+                    let mut g = lock(&park.0);
+                    g.0 = true;
+                    park.1.notify_all();
+                    while !g.1 {
+                        g = park.1.wait(g).unwrap_or_else(|e| e.into_inner());
+                    }
+                };
+                match sh.reload.get(*i).and_then(|h| h.as_ref()) {
+                    Some(h) => {
+                        let _ = h.modify(leave);
+                    }
+                    None => leave(&mut Rec::<2> { inst: *i }),
+                }
+                let mut g = lock(&park.0);
+                *g = (false, false);
+            }
+            Op::MDrop(..) => {}
             Op::DropGuard(g) => match self.guards.remove(g) {
                 None => log("{\"k\":\"ill\",\"c\":3}".into()),
                 Some(e) => drop(e),
@@ -666,6 +733,9 @@ fn parse_op(f: &[&str]) -> (usize, Op) {
         "new" => Op::New(n(2), parse_pk(&f[3..]), f.last() == Some(&"d")),
         "pdrop" => Op::PDrop(n(2)),
         "fdrop" => Op::FDrop(n(2)),
+        "pexit" => Op::PExitQ(f[2].parse().unwrap()),
+        "pdropguard" => Op::PDropGuard(n(2)),
+        "mdrop" => Op::MDrop(f[2].parse().unwrap(), n(3)),
         "hold" => Op::Hold(n(2), n(3)),
         "poke" => Op::Poke(n(2)),
         "peek" => Op::Peek(n(2)),
@@ -691,11 +761,20 @@ fn run_case(id: &str, n0: usize, n1: usize, global: bool, ops: &[(usize, Op)], n
     lock(&LOG).clear();
     lock(&CREATED).clear();
     NEXT_Q.store(0, Ordering::SeqCst);
-    let disp = vec![make_dispatch(0, n0), make_dispatch(1, n1)];
+    let (d0, r0) = make_dispatch(0, n0);
+    let (d1, r1) = make_dispatch(1, n1);
+    let disp = vec![d0, d1];
     if global {
         dispatch::set_global_default(disp[0].clone()).expect("global default already set: one process per global case");
     }
-    let sh = Arc::new(Shared { handles: Mutex::new(HashMap::new()), raw: Mutex::new(HashMap::new()), disp, global });
+    let sh = Arc::new(Shared {
+        handles: Mutex::new(HashMap::new()),
+        raw: Mutex::new(HashMap::new()),
+        disp,
+        reload: vec![r0, r1],
+        park: (Mutex::new((false, false)), std::sync::Condvar::new()),
+        global,
+    });
     let mut chans = Vec::new();
     let mut joins = Vec::new();
     for _ in 0..nthreads {
@@ -708,9 +787,47 @@ fn run_case(id: &str, n0: usize, n1: usize, global: bool, ops: &[(usize, Op)], n
     println!("{{\"case\":\"{}\"}}", id);
     let mut stopped = false;
     for (k, (t, op)) in ops.iter().enumerate() {
-        let (tx, rx) = &chans[*t % nthreads];
-        tx.send(op.clone()).unwrap();
-        let pan = rx.recv().unwrap();
+        let pan = if let Op::MDrop(tb, h) = op {
+            // thread A parks inside Handle::modify of the reload layer of h's instance (write lock held); thread B drops h:
+            // if that closes the span, B must BLOCK in the reload layer's on_close until A leaves; then A leaves.
+            let (ta, tb) = (*t % nthreads, *tb % nthreads);
+            let inst = {
+                let hs = lock(&sh.handles);
+                match hs.get(h) {
+                    Some(Handle::S(s)) => s.with_collector(|(_, d)| inst_of(&sh, d)).flatten(),
+                    _ => None,
+                }
+            };
+            if ta == tb {
+                chans[tb].0.send(Op::Drop(*h)).unwrap();
+                chans[tb].1.recv().unwrap()
+            } else {
+                chans[ta].0.send(Op::ModifyPark(inst.unwrap_or(9))).unwrap();
+                {
+                    let mut g = lock(&sh.park.0);
+                    while !g.0 {
+                        g = sh.park.1.wait(g).unwrap_or_else(|e| e.into_inner());
+                    }
+                }
+                chans[tb].0.send(Op::Drop(*h)).unwrap();
+                let early = chans[tb].1.recv_timeout(std::time::Duration::from_millis(40));
+                {
+                    let mut g = lock(&sh.park.0);
+                    g.1 = true;
+                    sh.park.1.notify_all();
+                }
+                let pa = chans[ta].1.recv().unwrap();
+                let pb = match early {
+                    Ok(x) => x,
+                    Err(_) => chans[tb].1.recv().unwrap(),
+                };
+                pa.or(pb)
+            }
+        } else {
+            let (tx, rx) = &chans[*t % nthreads];
+            tx.send(op.clone()).unwrap();
+            rx.recv().unwrap()
+        };
         let mut obs: Vec<String> = lock(&LOG).drain(..).collect();
         if let Some(m) = &pan {
             obs.push(format!("{{\"k\":\"panic\",\"msg\":\"{}\"}}", m));
